@@ -8,9 +8,9 @@
 //verif:shard VerifC09cMemHistory 14
 //verif:shard VerifC09dMemRecords 12
 //verif:obligation C09.a memory book representation invariant after every operation of every bounded history: an entry is in the expiry heap at heapIndex iff its TTL is below the connected TTL, connected entries have heapIndex -1, the heap is ordered by expiry and holds exactly the map's non-connected entries
-//verif:obligation C09.c memory book vs the reference model of the statement on every history of 3 (thorough 4) operations from {AddAddrs, SetAddrs, UpdateAddrs, ClearAddrs} x 2 addresses x TTL classes {Temp, RecentlyConnected, Connected, 0} with symbolic clock advances: Addrs(p) is exactly the set of addresses whose most recently assigned expiry lies in the future; after a long advance and gc the peer is listed iff it has a live address and nothing expired is stored
+//verif:obligation C09.c memory book vs the reference model of the statement on every history of 3 operations from {AddAddrs, SetAddrs, UpdateAddrs, ClearAddrs} x 2 addresses x TTL classes {Temp, RecentlyConnected, Connected, 0} with symbolic clock advances: Addrs(p) is exactly the set of addresses whose most recently assigned expiry lies in the future; after a long advance and gc the peer is listed iff it has a live address and nothing expired is stored
 //verif:obligation C09.d signed peer records (memory book): a record sealed by a key that is not its peer's is refused and leaves no trace; a record is accepted iff its Seq is not lower than the stored one, evicts the previous record's addresses it no longer lists unless connected, is returned while the peer continuously has live addresses and never after all its addresses expired or were cleared
-//verif:bound one peer, two addresses (atoms), whole-second instants, history length 3 (thorough 4) + final gc, per-peer and global caps disabled (cap eviction is a separate kernel)
+//verif:bound one peer, two addresses (atoms), whole-second instants, history length 3 (both tiers; 4 ran past an hour per shard) + final gc, per-peer and global caps disabled (cap eviction is a separate kernel)
 //verif:stub multiaddrs are opaque atoms (peer.SplitAddr replaced by the identity for addresses without /p2p suffix; natively the real function runs); Envelope.Record / ID.MatchesPublicKey hooked (crypto and protobuf outside); clock = harness stub
 //verif:outside /p2p-suffixed addresses, AddrStream, cap eviction, concurrent callers, close/reopen
 package pstoremem
@@ -215,7 +215,7 @@ func vC09apply(mab *memoryAddrBook, ref *vC09ref, op int, now int64) {
 
 func VerifC09cMemHistory() {
 	first := vCase(vC09nOps)
-	K := 3 + vTier()
+	K := 3 // history 4 was tried for the thorough tier: single shards ran past an hour; both tiers use 3
 	mab := vC09book()
 	ref := &vC09ref{}
 	now := int64(1000)
@@ -278,7 +278,7 @@ func VerifC09dMemRecords() {
 	defer vC09removeRecordHooks()
 	vC09installRecordHooks()
 	vC09recs, vC09envs = nil, nil
-	K := 3 + vTier()
+	K := 3 // history 4 was tried for the thorough tier: single shards ran past an hour; both tiers use 3
 	mab := vC09book()
 	ref := &vC09ref{}
 	now := int64(1000)
